@@ -117,6 +117,52 @@ func r14_2(c *Ctx) {
 			c.ok(name+":store-before-error", P.pos(fn.Pos()), "no store into the receiver lies on a path to an error return")
 		}
 	}
+	// an invalid input is reported: in every error-returning function that calls the guarded constructor,
+	// every return reachable from the constructor's failure edge carries a non-nil error
+	ctor := P.Fn("newMessageField")
+	if ctor == nil {
+		c.anchor("newMessageField")
+		return
+	}
+	for _, site := range P.staticCallSites(ctor) {
+		call, ok := site.(*ssa.Call)
+		if !ok {
+			continue
+		}
+		fn := call.Parent()
+		res := fn.Signature.Results()
+		if res.Len() == 0 || res.At(res.Len()-1).Type().String() != "error" {
+			continue
+		}
+		isErr := func(v ssa.Value) bool {
+			e, ok := v.(*ssa.Extract)
+			return ok && e.Tuple == ssa.Value(call) && e.Index == 1
+		}
+		name := fnLabel(fn) + ":invalid-reported"
+		found, silent := false, false
+		for _, ifi := range ifsIn(fn) {
+			s, ok := nilEdge(ifi, isErr)
+			if !ok {
+				continue
+			}
+			found = true
+			forward([]startPoint{atEdge(ifi.Block(), 1-s)}, func(in ssa.Instruction) searchAction {
+				if r, ok := in.(*ssa.Return); ok && len(r.Results) == res.Len() {
+					for _, src := range sources(r.Results[res.Len()-1]) {
+						if isNilConst(src) {
+							silent = true
+						}
+					}
+				}
+				return cont
+			})
+		}
+		if !found {
+			c.bad(name, P.ipos(call), "the validation result of newMessageField is never tested: an input containing a line break is not reported")
+			continue
+		}
+		c.check(!silent, name, P.ipos(call), "a value rejected by the single-line check is reported with a non-nil error", "a value rejected by the single-line check can be answered with a nil error: the caller cannot tell a corrupt value from an absent one")
+	}
 }
 
 // evalInt folds an integer SSA expression made of constants and + - *.
